@@ -101,7 +101,7 @@ PROPS["C04"] = dict(
 PROPS["C02"] = dict(
     title="routing: first match wins, default deny, nothing leaks",
     level="exploration",
-    technique="runtime differential monitor: reference first-match router with harness-computed filter truth vs. the real rules engine + process_request observed through recording connectors; cidr_match vs bitwise containment",
+    technique="runtime differential monitor: reference first-match router with harness-computed filter truth vs. the real rules engine + process_request observed through recording connectors; cidr_match vs bitwise containment; the same oracle end to end over real listeners (IPv4 and IPv6), /api/rules, /api/history and origin-side observation of refused requests",
     text="Builds the real GlobalState (rules::from_config + set_rules, recording connectors with random feature sets, a real load balancer) and runs generated requests through the real process_request. Rule lists of length 0..12 with duplicates, deny and filterless rules anywhere and filters drawn from a template family (==/!= on every request attribute, port ==/>=/_:, =~ literals, cidr_match, &&/||/!, and filters that error at run time) whose true/false/error value the harness computes itself. Oracle: connect() runs on exactly the connector the reference router names, on none at all when it refuses (deny, no match, missing feature), refusals are recorded as errors; cidr_match is compared with an independent bitwise containment on a dense IPv4/IPv6 grid.",
     note="trusted: the harness truth functions for the filter templates; only canonical CIDRs are generated (the cidr crate rejects others at parse time)",
     design_ref="DESIGN.md 3 C02",
@@ -111,7 +111,7 @@ PROPS["C02"] = dict(
 PROPS["C03"] = dict(
     title="destination integrity through every re-encoding",
     level="exploration",
-    technique="runtime monitor composing the real inbound decoders and outbound encoders with independent strict reference parsers of the outgoing protocol; 2-hop check through the real peer decoder",
+    technique="runtime monitor composing the real inbound decoders and outbound encoders with independent strict reference parsers of the outgoing protocol; 2-hop check through the real peer decoder; end to end: destinations named by raw clients compared with the targets two chained real proxies recorded, per connector kind",
     text="For destinations with host bytes of length 0..70000 in classes plain/colon/space/CR/LF/NUL/control/non-UTF-8/multibyte/IP-literal and edge ports, the harness writes the request in each inbound protocol (HTTP CONNECT, SOCKS5, SOCKS4a, SOCKS5-UDP header, RPFM attribute), lets the real decoder produce the target the rules see, feeds that target to every real outbound encoder (CONNECT via h11c_connect, SOCKS5, SOCKS4, SOCKS5-UDP, RPFM; full and partial writes) and parses the emitted bytes with strict reference parsers. Verdict: refused, or the next hop reads exactly the client's destination with no extra protocol fields; where the next hop is another redproxy, its real decoder must read it too.",
     note="trusted: the harness reference parsers (RFC 1928 / SOCKS4a / RFC 7230 request head / RPFM TLV); IP literals compare as addresses",
     design_ref="DESIGN.md 3 C03",
